@@ -436,6 +436,12 @@ func registerIntercepts(g *Engine) {
 		e.fieldUses = nil
 		return nil
 	}
+	// verifKnownDeadlock(id): from here on, a deadlock of this path is the listed
+	// known finding id (if it is listed as open) instead of a new violation.
+	ic["verif:verifKnownDeadlock"] = func(e *Exec, fn *ssa.Function, a []Value) Value {
+		e.knownDeadlockID = e.constString(a[0])
+		return nil
+	}
 	ic["verif:verifSettle"] = func(e *Exec, fn *ssa.Function, a []Value) Value { return nil }
 	// verifQuiesce: (explore mode) the calling thread waits until no other
 	// thread can run any more; returns how many other threads have not
